@@ -453,15 +453,17 @@ fn handle(line: &str) -> String {
             // k-th listed value (0.0 when the list is exhausted); every call is reported as i:j:len(minima)
             let size: usize = t[1].parse().unwrap();
             let vals = parse_f64s(t[2]);
-            let calls = std::cell::RefCell::new(Vec::<(usize, usize, usize)>::new());
+            let calls = std::cell::RefCell::new(Vec::<(usize, usize, usize, usize)>::new());
             let res = smawk::online_column_minima(0.0f64, size, |m: &[(usize, f64)], i, j| {
                 let mut c = calls.borrow_mut();
                 let v = vals.get(c.len()).copied().unwrap_or(0.0);
-                c.push((i, j, m.len()));
+                // 4th field: does every entry of the minima slice name a row below its column (row 0 for column 0)?
+                let ok = m.iter().enumerate().all(|(k, e)| if k == 0 { e.0 == 0 } else { e.0 < k });
+                c.push((i, j, m.len(), ok as usize));
                 v
             });
             let rows: Vec<String> = res.iter().map(|(r, _)| r.to_string()).collect();
-            let cs: Vec<String> = calls.borrow().iter().map(|(i, j, l)| format!("{}:{}:{}", i, j, l)).collect();
+            let cs: Vec<String> = calls.borrow().iter().map(|(i, j, l, k)| format!("{}:{}:{}:{}", i, j, l, k)).collect();
             format!("OK {} {}", if rows.is_empty() { "-".to_string() } else { rows.join(",") },
                     if cs.is_empty() { "-".to_string() } else { cs.join(",") })
         }
